@@ -41,6 +41,13 @@ M = [
         /* allocate next item */
         cJSON *new_item = cJSON_New_Item(&(input_buffer->hooks));
         CJSON_VERIF_YIELD(3)"""),
+ ("m01d_prescan_le", "C01", C, "while (((size_t)(input_end - input_buffer->content) < input_buffer->length) && (*input_end != '\\\"'))", "while (((size_t)(input_end - input_buffer->content) <= input_buffer->length) && (*input_end != '\\\"'))"),
+ ("m04e_copy_without_terminator", "C04", C, """        memcpy(printed, buffer->buffer, cjson_min(buffer->length, buffer->offset + 1));
+        printed[buffer->offset] = '\\0'; /* just to be sure */""", """        memcpy(printed, buffer->buffer, cjson_min(buffer->length, buffer->offset));"""),
+ ("m09d_number_reserves_short", "C09", C, "    output_pointer = ensure(output_buffer, (size_t)length + sizeof(\"\"));", "    output_pointer = ensure(output_buffer, (size_t)length - 1);"),
+ ("m09e_object_open_reserves_0", "C09", C, """    length = (size_t) (output_buffer->format ? 2 : 1); /* fmt: {\\n */
+    output_pointer = ensure(output_buffer, length + 1);""", """    length = (size_t) (output_buffer->format ? 2 : 1); /* fmt: {\\n */
+    output_pointer = ensure(output_buffer, 0);"""),
  ("m03a_nul_literal", "C03", C, """    if (can_read(input_buffer, 4) && (strncmp((const char*)buffer_at_offset(input_buffer), "null", 4) == 0))
     {
         item->type = cJSON_NULL;
